@@ -177,3 +177,18 @@ Definition check_validate_cart (sh : shape) (steps : vec) (err : Z) : bool := (e
 Definition check_validate_cyl (sh : shape) (steps : vec) (rmin : Q) (err : Z) : bool := (errz (validate_cyl sh steps rmin) =? err)%Z.
 Definition check_validate_integrator (stp : Q) (ms : Z) (err_step err_ms : Z) : bool :=
   (errz (validate_step stp) =? err_step)%Z && (errz (validate_min_samples ms) =? err_ms)%Z.
+
+(* ---- emission_function of a cylindrical emitter with ANY sector size / period, through the code's own angular formula
+   fed with the angle atan2 returned for the point (oracle value) ---- *)
+Definition amb_code (g : cylq) (phi : Q) (p : vec) : bool :=
+  let '(x, y, z) := p in
+  let s := x * x + y * y in
+  let i := ir_of (Z.to_nat (q_nr g) + 2) s (q_rmin g) (q_dr g) in
+  near_sq s (q_rmin g + inject_Z i * q_dr g) || near_sq s (q_rmin g + inject_Z (i + 1) * q_dr g)
+  || near_sq s (q_rmin g + inject_Z (i - 1) * q_dr g)
+  || near_int (z / q_dz g)
+  || (if (q_nphi g =? 1)%Z then false
+      else near_int (Qmod (phi + 360) (inject_Z (q_nphi g) * q_dphi g) / q_dphi g)
+           || Qle_bool (Qabs (Qabs phi - 180)) amb_eps).
+Definition check_emission_phi (sh : shape) (g : cylq) (vm : list Z) (p : vec) (phi : Q) (init out : list Q) (err : Z) : Z :=
+  check_emission (cyl_cell_code g phi) (fun _ => amb_code g phi) sh vm p init out err.
